@@ -29,15 +29,22 @@ impl Judge for TotalJudge {
         "C04"
     }
     fn judge(&self, m: &Module, cfg: Option<&CfgLite>) -> JR {
+        // the front-end: the module as JSON and YAML text through the crate's loaders; whatever
+        // they admit is compiled as loaded (must return), what they reject (nesting beyond the
+        // loaders' recursion limit) is outside the quantifier
+        let loaded = match loader_pass(m) {
+            Ok(tag) => tag,
+            Err(f) => return f,
+        };
         let (co, prog) = realrun::compile_real(m);
         let prog = match (co, prog) {
             (CompileOutcome::Ok, Some(p)) => p,
-            (CompileOutcome::Err { kind, .. }, _) => return JR::Pass { outcome: format!("compile-err:{kind}"), fingerprint: fnv(&kind) },
+            (CompileOutcome::Err { kind, .. }, _) => return JR::Pass { outcome: format!("compile-err:{kind}{loaded}"), fingerprint: fnv(&kind) },
             (CompileOutcome::Panic(p), _) => return JR::Fail { class: format!("compile-panic:{}", class_of(&p)), what: format!("the compiler panicked: {p}") },
             _ => return JR::Fail { class: "compile-none".into(), what: "no program".into() },
         };
         if region::check_module(m, RegionOpts { inline_array: true }).is_err() {
-            return JR::Pass { outcome: "compiled, not well-scoped: not run".into(), fingerprint: 1 };
+            return JR::Pass { outcome: format!("compiled, not well-scoped: not run{loaded}"), fingerprint: 1 };
         }
         let natives = refsem::default_natives();
         let got = realrun::run_program(m, &prog, &natives, &cfg.map(RunCfg::from).unwrap_or_default());
@@ -47,8 +54,50 @@ impl Judge for TotalJudge {
         if let Some(p) = &got.clear_panic {
             return JR::Fail { class: format!("clear-panic:{}", class_of(p)), what: format!("clearing / dropping the VM after the run panicked: {p}") };
         }
-        JR::Pass { outcome: got.result.clone(), fingerprint: fnv(&format!("{}{:?}", got.result, cfg)) }
+        JR::Pass { outcome: format!("{}{loaded}", got.result), fingerprint: fnv(&format!("{}{:?}", got.result, cfg)) }
     }
+}
+
+/// JSON / YAML text -> loader -> compile; Ok(tag for the outcome histogram) or the failure
+fn loader_pass(m: &Module) -> Result<&'static str, JR> {
+    use cao_lang::prelude::{compile, CompileOptions};
+    let lowered = crate::lower::module(m);
+    let mut rejected = 0;
+    for fmt in ["json", "yaml"] {
+        let text = std::panic::catch_unwind(std::panic::AssertUnwindSafe(|| match fmt {
+            "json" => serde_json::to_string(&lowered).map_err(|e| e.to_string()),
+            _ => serde_yaml::to_string(&lowered).map_err(|e| e.to_string()),
+        }));
+        let text = match text {
+            Ok(Ok(t)) => t,
+            // a tree the writer itself refuses is not an input of the loader
+            Ok(Err(_)) => {
+                rejected += 1;
+                continue;
+            }
+            Err(p) => return Err(JR::Fail { class: format!("{fmt}-writer-panic"), what: format!("writing the module as {fmt} panicked: {}", cvx_core::engine::panic_message(&p)) }),
+        };
+        let parsed = std::panic::catch_unwind(|| match fmt {
+            "json" => serde_json::from_str::<cao_lang::compiler::Module>(&text).map_err(|e| e.to_string()),
+            _ => serde_yaml::from_str::<cao_lang::compiler::Module>(&text).map_err(|e| e.to_string()),
+        });
+        let parsed = match parsed {
+            Ok(Ok(p)) => p,
+            Ok(Err(_)) => {
+                rejected += 1;
+                continue;
+            }
+            Err(p) => return Err(JR::Fail { class: format!("{fmt}-loader-panic"), what: format!("loading the module from {fmt} panicked: {}", cvx_core::engine::panic_message(&p)) }),
+        };
+        if let Err(p) = std::panic::catch_unwind(std::panic::AssertUnwindSafe(|| compile(parsed, CompileOptions::new()).map(|_| ()).map_err(|_| ()))) {
+            return Err(JR::Fail { class: format!("compile-panic:{}", class_of(&cvx_core::engine::panic_message(&p))), what: format!("the compiler panicked on the module as loaded from {fmt}: {}", cvx_core::engine::panic_message(&p)) });
+        }
+    }
+    Ok(match rejected {
+        0 => "",
+        1 => " [one loader rejects this tree]",
+        _ => " [both loaders reject this tree]",
+    })
 }
 
 static QUICK: OnceLock<Vec<Box<dyn Family>>> = OnceLock::new();
@@ -103,7 +152,7 @@ impl Check for C04 {
     fn info(&self, tier: Tier) -> CheckInfo {
         let fams = families(tier);
         CheckInfo {
-            rule: "compile half: F-names (function x module x variable names from {\"\",a,a.b,super,main,é,std,1x,f} x 10 import strings incl. too many super. and malformed ones x import position), F-shape (submodule depth 0..70, 16 card kinds nested to depth up to 60/120, locals 0..260, globals 0..64/600, arity x supplied arguments x duplicate/empty parameter names, closure nesting 0..9), F-kinds (27 parent card kinds x child slot x 18 child kind classes, not restricted to well-scoped input); run half: F-exhaust (14 programs: recursion, temporaries, function/native/closure/string/table values filling the stack, locals, allocation churn, host re-entry, sort/min, long keys x sizes x host configurations: value-stack size 1..8, call-stack size 0..3, memory limit 0..4096, budget 0..50), F-cyclic (self-containing tables in Equals/Less/hash/Len/sorted/Add) and every C01 family incl. the cases C01 does not compare. Verdict per case: compile returns Ok/Err, run returns Ok/Err, clear+drop return; panic / abort / signal / watchdog expiry = violation. 'states' = distinct (result kind, configuration) per chunk".into(),
+            rule: "front-end tie: every module is also written as JSON and YAML text and read back through the crate's serde loaders; what a loader admits is compiled as loaded (must return), what both reject (nesting beyond the loaders' recursion limit) is tagged in the outcome histogram. compile half: F-names (function x module x variable names from {\"\",a,a.b,super,main,é,std,1x,f} x 10 import strings incl. too many super. and malformed ones x import position), F-shape (submodule depth 0..70, 16 card kinds nested to depth up to 60/120, locals 0..260, globals 0..64/600, arity x supplied arguments x duplicate/empty parameter names, closure nesting 0..9), F-kinds (27 parent card kinds x child slot x 18 child kind classes, not restricted to well-scoped input); run half: F-exhaust (14 programs: recursion, temporaries, function/native/closure/string/table values filling the stack, locals, allocation churn, host re-entry, sort/min, long keys x sizes x host configurations: value-stack size 1..8, call-stack size 0..3, memory limit 0..4096, budget 0..50), F-cyclic (self-containing tables in Equals/Less/hash/Len/sorted/Add) and every C01 family incl. the cases C01 does not compare. Verdict per case: compile returns Ok/Err, run returns Ok/Err, clear+drop return; panic / abort / signal / watchdog expiry = violation. 'states' = distinct (result kind, configuration) per chunk".into(),
             bound: format!("families {:?}, {} cases", fams.iter().map(|f| format!("{}={}", f.name(), f.len())).collect::<Vec<_>>(), progcheck::total_cases(fams)),
             exhaustive: true,
             assumptions: vec![
